@@ -20,7 +20,109 @@ pub fn is_child() -> bool {
     std::env::var_os("VCHECK_STAGE_CHILD").is_some()
 }
 
+/// Variables that programs and libraries commonly consult (terminal capabilities and colours, locale, time zone,
+/// directories, verbosity switches, reproducible-build and CI markers, thread-pool sizes), each with values a user can
+/// really have. Nothing a QR encoder or its renderers produce may depend on any of them.
+const ENV_PROFILES: [&[(&str, &str)]; 4] = [
+    &[
+        ("COLORFGBG", "0;15"), ("TERM", "xterm-256color"), ("COLORTERM", "truecolor"), ("NO_COLOR", "1"), ("CLICOLOR", "0"), ("CLICOLOR_FORCE", "1"), ("FORCE_COLOR", "3"),
+        ("TERM_PROGRAM", "Apple_Terminal"), ("COLUMNS", "40"), ("LINES", "10"), ("LANG", "tr_TR.UTF-8"), ("LC_ALL", "tr_TR.UTF-8"), ("LC_NUMERIC", "de_DE.UTF-8"), ("LC_CTYPE", "C"),
+        ("TZ", "Pacific/Kiritimati"), ("SOURCE_DATE_EPOCH", "0"), ("CI", "true"), ("DEBUG", "1"), ("VERBOSE", "1"), ("QUIET", "1"), ("RUST_LOG", "trace"), ("RUST_BACKTRACE", "full"),
+        ("RAYON_NUM_THREADS", "1"), ("OMP_NUM_THREADS", "1"), ("HOME", "/nonexistent"), ("USER", "nobody"), ("SHELL", "/bin/false"), ("DISPLAY", ":99"), ("WAYLAND_DISPLAY", "wayland-9"),
+        ("XDG_CONFIG_HOME", "/nonexistent/config"), ("XDG_CACHE_HOME", "/nonexistent/cache"), ("FAST_QR_DEBUG", "1"), ("QR_DEBUG", "1"), ("QR_THEME", "light"), ("THEME", "light"), ("DARK_MODE", "0"),
+    ],
+    &[
+        ("COLORFGBG", "15;0"), ("TERM", "dumb"), ("NO_COLOR", ""), ("CLICOLOR_FORCE", "0"), ("COLUMNS", "0"), ("LINES", "0"), ("LANG", "C"), ("LC_ALL", "POSIX"), ("TZ", "UTC"),
+        ("SOURCE_DATE_EPOCH", "4102444800"), ("CI", ""), ("RUST_LOG", "off"), ("RUST_BACKTRACE", "0"), ("HOME", ""), ("TMPDIR", "/nonexistent/tmp"), ("TEMP", "/nonexistent/tmp"), ("TMP", "/nonexistent/tmp"),
+        ("QR_THEME", "dark"), ("THEME", "dark"), ("DARK_MODE", "1"), ("FAST_QR_CACHE", "0"), ("FAST_QR_THREADS", "1"),
+    ],
+    &[
+        ("COLORFGBG", "0;default;15"), ("TERM", "linux"), ("COLORTERM", "24bit"), ("LANG", "ja_JP.UTF-8"), ("LC_ALL", "ja_JP.eucJP"), ("LC_NUMERIC", "fr_FR.UTF-8"), ("TZ", "America/St_Johns"),
+        ("COLUMNS", "100000"), ("LINES", "100000"), ("FORCE_COLOR", "0"), ("TERM_PROGRAM", "vscode"), ("INSIDE_EMACS", "29.1,comint"), ("RUST_MIN_STACK", "16777216"), ("MALLOC_PERTURB_", "165"),
+        ("LD_LIBRARY_PATH", "/nonexistent/lib"), ("PWD", "/nonexistent"), ("OLDPWD", "/"), ("HOSTNAME", "qr-\u{e9}"), ("FAST_QR_CACHE", "1"), ("FAST_QR_LOG", "trace"),
+    ],
+    &[("COLORFGBG", "7;0"), ("TERM", ""), ("LANG", ""), ("LC_ALL", ""), ("TZ", ":/nonexistent"), ("PATH", ""), ("HOME", "/"), ("NO_COLOR", "0"), ("CLICOLOR", "1")],
+];
+
+/// Environment stage: the same verif-profile binary re-runs a third of the quick workload in a child process whose
+/// environment is (a) cleared and then (b) filled with one of the profiles above.
+fn environment_stage(ctx: &Ctx, prop: &str, rep: &mut Report) {
+    let exe = match std::env::current_exe() {
+        Ok(e) => e,
+        Err(e) => {
+            rep.stats.inconclusive(format!("environment stage: current_exe: {e}"));
+            return;
+        }
+    };
+    let t0 = Instant::now();
+    let which = (ctx.seed as usize).wrapping_add(prop.bytes().map(|b| b as usize).sum::<usize>()) % ENV_PROFILES.len();
+    let profile = ENV_PROFILES[which];
+    let evdir = std::env::var_os("VCHECK_TARGET_DIR").map(PathBuf::from).unwrap_or_else(|| ctx.root.join("harness/target")).join("scratch").join(format!("envstage-{}-{}", prop, std::process::id()));
+    let _ = std::fs::create_dir_all(&evdir);
+    let mut cmd = Command::new(&exe);
+    cmd.args(["run", prop, "--tier", "quick"]).env_clear();
+    // what the harness itself needs
+    for (k, v) in std::env::vars_os() {
+        let ks = k.to_string_lossy();
+        if ks.starts_with("VERIF_") || ks.starts_with("VCHECK_") {
+            cmd.env(k, v);
+        }
+    }
+    for (k, v) in profile {
+        cmd.env(k, v);
+    }
+    cmd.env("VCHECK_STAGE_CHILD", "environment").env("VERIF_THIN", "3").env("VERIF_SEED", format!("{}", (ctx.seed ^ 0xe57a6e) as i128)).env("VERIF_EVIDENCE_DIR", &evdir).stdin(Stdio::null());
+    let out = match cmd.output() {
+        Ok(o) => o,
+        Err(e) => {
+            rep.stats.inconclusive(format!("environment stage: cannot start child: {e}"));
+            let _ = std::fs::remove_dir_all(&evdir);
+            return;
+        }
+    };
+    let stdout = String::from_utf8_lossy(&out.stdout).to_string();
+    let mut violations = 0u64;
+    for line in stdout.lines() {
+        if let Some(rest) = line.strip_prefix("VIOLATION ") {
+            let field = |k: &str| rest.split_whitespace().find_map(|w| w.strip_prefix(&format!("{k}="))).unwrap_or("").to_string();
+            let kind = field("kind");
+            let replay = field("replay");
+            let detail = rest.splitn(4, ' ').nth(3).unwrap_or("").to_string();
+            let job = std::fs::read_to_string(&replay).ok().and_then(|t| serde_json::from_str::<Value>(&t).ok()).map(|v| v["job"].clone()).unwrap_or(json!({"fam": "environment-stage"}));
+            rep.stats.violations.push(crate::stats::Violation {
+                property: prop.to_string(),
+                kind: format!("hostile-environment:{kind}"),
+                detail: format!("{detail} (observed only in a process whose environment was cleared and set to profile {which}: {})", profile.iter().map(|(k, v)| format!("{k}={v}")).collect::<Vec<_>>().join(" ")),
+                job: json!({"environment_profile": which, "inner": job, "child_replay": replay}),
+            });
+            rep.stats.count("violations_total", 1);
+            violations += 1;
+        } else if line.starts_with("INCONCLUSIVE") {
+            rep.stats.inconclusive(format!("environment stage: {line}"));
+        }
+    }
+    let ev: Option<Value> = std::fs::read_to_string(evdir.join(format!("{prop}.json"))).ok().and_then(|t| serde_json::from_str(&t).ok());
+    let _ = std::fs::remove_dir_all(&evdir);
+    let evals = ev.as_ref().and_then(|e| e["coverage"]["evaluations"].as_u64()).unwrap_or(0);
+    match out.status.code() {
+        Some(0) | Some(1) if ev.is_some() => {}
+        Some(2) => {}
+        other => rep.stats.inconclusive(format!("environment stage: child ended with status {other:?} and no evidence")),
+    }
+    rep.stats.count("hostile_environment_executions", evals);
+    rep.extra.push((
+        "stage_environment".into(),
+        json!({
+            "what": "same monitors, every third job of the quick workload, in a child process whose environment was cleared and filled with a profile of commonly consulted variables (terminal colours and capabilities, locale, time zone, directories, verbosity, CI / reproducible-build markers, thread-pool sizes)",
+            "profile": which, "variables_set": profile.len(), "evaluations": evals, "violations": violations, "wall_s": (t0.elapsed().as_secs_f64() * 10.0).round() / 10.0,
+        }),
+    ));
+}
+
 pub fn run(ctx: &Ctx, prop: &str, rep: &mut Report) {
+    if !is_child() && !std::env::var("VERIF_NO_RELEASE_STAGE").map(|v| v == "1").unwrap_or(false) {
+        environment_stage(ctx, prop, rep);
+    }
     if is_child() || std::env::var("VERIF_NO_RELEASE_STAGE").map(|v| v == "1").unwrap_or(false) {
         return;
     }
